@@ -791,18 +791,18 @@ class _FrozenController:
 
 
 def c08_case(method, sde_type, noise, d, m, batch, seed, dt, ts, grad_free=False, adaptive=False, tol=1e-3, eps=1e-6,
-             freeze=False):
+             freeze=False, y0_grad=True):
     if freeze:
         with _FrozenController() as fc:
-            return _c08_case(method, sde_type, noise, d, m, batch, seed, dt, ts, grad_free, adaptive, tol, eps, fc)
-    return _c08_case(method, sde_type, noise, d, m, batch, seed, dt, ts, grad_free, adaptive, tol, eps, None)
+            return _c08_case(method, sde_type, noise, d, m, batch, seed, dt, ts, grad_free, adaptive, tol, eps, fc, y0_grad)
+    return _c08_case(method, sde_type, noise, d, m, batch, seed, dt, ts, grad_free, adaptive, tol, eps, None, y0_grad)
 
 
-def _c08_case(method, sde_type, noise, d, m, batch, seed, dt, ts, grad_free, adaptive, tol, eps, fc):
+def _c08_case(method, sde_type, noise, d, m, batch, seed, dt, ts, grad_free, adaptive, tol, eps, fc, y0_grad=True):
     torch.manual_seed(seed)
     sde = RandSDE(noise, sde_type, d, m, seed)
     g0 = torch.Generator().manual_seed(seed)
-    y0 = (0.3 * torch.randn(batch, d, generator=g0, dtype=torch.float64)).requires_grad_(True)
+    y0 = (0.3 * torch.randn(batch, d, generator=g0, dtype=torch.float64)).requires_grad_(y0_grad)
     params = [p for p in sde.parameters()]
     w = torch.randn(len(ts), batch, d, generator=g0, dtype=torch.float64)
     p = dict(method=method, batch=batch, m=sde.m, seed=seed)
@@ -819,8 +819,12 @@ def _c08_case(method, sde_type, noise, d, m, batch, seed, dt, ts, grad_free, ada
     if fc:
         fc.mode = 'rec'
     L = loss(y0)
-    grads = torch.autograd.grad(L, [y0] + params, allow_unused=True)
+    grads = torch.autograd.grad(L, ([y0] if y0_grad else []) + params, allow_unused=True)
+    if not y0_grad:
+        grads = (None,) + tuple(grads)   # the initial state is plain data: it is not perturbed either
     dirs = [torch.randn(x.shape, generator=g0, dtype=torch.float64) for x in [y0] + params]
+    if not y0_grad:
+        dirs[0] = torch.zeros_like(y0)
     an = sum(float((g * dv).sum()) for g, dv in zip(grads, dirs) if g is not None)
     with torch.no_grad():
         vals = []
@@ -842,7 +846,7 @@ def c08_search(rng, n, adaptive_share=0.0):
         method, sde_type, noise = random_solver(rng)
         cfg = dict(method=method, sde_type=sde_type, noise=noise, d=rng.choice([1, 2, 3]), m=rng.choice([1, 2, 3]),
                    batch=rng.choice([1, 2]), seed=rng.randrange(10 ** 6), dt=rng.choice([0.125, 0.0625, 0.1]),
-                   grad_free=(method == 'milstein' and noise != 'additive' and rng.random() < 0.4))
+                   grad_free=(method == 'milstein' and noise != 'additive' and rng.random() < 0.4), y0_grad=rng.random() < 0.6)
         dt = cfg['dt']
         cfg['ts'] = random_ts(rng, dt)[0][:4]
         if len(cfg['ts']) < 2:
@@ -879,11 +883,23 @@ def c08_search(rng, n, adaptive_share=0.0):
 # C10: reversible-Heun adjoint vs backprop on the real sdeint / sdeint_adjoint
 # ---------------------------------------------------------------------------------------------------------------
 
-def c10_case(noise, d, m, batch, seed, dt, ks, t0=0.0):
+def c10_case(noise, d, m, batch, seed, dt, ks, t0=0.0, weights='dense'):
     sde = RandSDE(noise, 'stratonovich', d, m, seed)
     g0 = torch.Generator().manual_seed(seed)
     ts = [t0 + k * dt for k in ks]
     w = torch.randn(len(ts), batch, d, generator=g0, dtype=torch.float64)
+    if weights == 'sparse':      # the loss looks at a subset of the output times only
+        for k in range(len(ts) - 1):
+            if (seed + k) % 2 == 0:
+                w[k] = 0.0
+    elif weights == 'cancel':    # at interior output times the gradient is non-zero but its entries cancel exactly
+        for k in range(1, len(ts) - 1):
+            w[k] = 0.0
+            if batch * d >= 2:
+                flat = w[k].view(-1)
+                flat[0], flat[1] = 0.75, -0.75
+            else:
+                w[k] = 0.0
     p = dict(method='reversible_heun', batch=batch, m=sde.m, seed=seed)
     params = list(sde.parameters())
     res = []
@@ -913,7 +929,8 @@ def c10_search(rng, n):
         dt = rng.choice([0.125, 0.0625, 0.25]) if dyadic else rng.choice([0.1, 0.05, 0.3])
         ks = [0] + sorted(rng.sample(range(1, 14), rng.randrange(1, 5)))
         cfg = dict(noise=rng.choice(NOISE), d=rng.choice([1, 2, 3]), m=rng.choice([1, 2, 3]), batch=rng.choice([1, 2]),
-                   seed=rng.randrange(10 ** 6), dt=dt, ks=ks, t0=rng.choice([0.0, 0.0, 0.5, -0.25]) if dyadic else 0.0)
+                   seed=rng.randrange(10 ** 6), dt=dt, ks=ks, t0=rng.choice([0.0, 0.0, 0.5, -0.25]) if dyadic else 0.0,
+                   weights=rng.choice(['dense', 'sparse', 'cancel']))
         try:
             rel, slivers = c10_case(**cfg)
             # dyadic dt: the step grid is exact in floats, the two gradients agree to ~1e-15; other dt: the accumulated grid and the
